@@ -169,6 +169,10 @@ def stepUpd (st : State) (name : String) (rest : List Char) : Option (State × S
     (arg pTypeRef fun tr => arg pIgnore fun ig => arg pFlag fun noop => done (tr, ig, noop)) rest |>.map fun ((tr, ig, noop), _) =>
       ({ st with rootType := tr, live := .null, managers := [],
                  updater := { converter := Converter.identity, ignore := fun _ => ig, returnInputOnNoop := noop } }, "ok")
+  | "upd.mode" =>
+    (arg pFlag fun ren => done ren) rest |>.map fun (ren, _) =>
+      ({ st with multiVersion := ren,
+                 updater := { st.updater with converter := if ren then Converter.renaming else Converter.identity } }, "ok")
   | "upd.conv" =>
     -- converter configuration: versions reported missing / failing with an ordinary error
     let pStrs : P (List String) := fun cs => match cs with
@@ -180,6 +184,12 @@ def stepUpd (st : State) (name : String) (rest : List Char) : Option (State × S
   | "upd.apply" =>
     (arg pStr fun mgr => arg pStr fun ver => arg pFlag fun force => arg pValue fun cfg => done (mgr, ver, force, cfg)) rest |>.map
       fun ((mgr, ver, force, cfg), _) =>
+        let st := if st.multiVersion then
+            let tr := TypeRef.mk (some ver) Atom.none none
+            match st.updater.converter.convert ⟨st.live, st.rootType⟩ ver with
+            | .ok tv => { st with live := (if st.rootType.named.isSome then tv.value else st.live), rootType := tr }
+            | _ => { st with rootType := tr }
+          else st
         match asTyped s cfg st.rootType false with
         | .err => (st, "invalid")
         | .panic => (st, "panic")
@@ -210,6 +220,12 @@ def stepUpd (st : State) (name : String) (rest : List Char) : Option (State × S
   | "upd.update" =>
     (arg pStr fun mgr => arg pStr fun ver => arg pValue fun obj => done (mgr, ver, obj)) rest |>.map
       fun ((mgr, ver, obj), _) =>
+        let st := if st.multiVersion then
+            let tr := TypeRef.mk (some ver) Atom.none none
+            match st.updater.converter.convert ⟨st.live, st.rootType⟩ ver with
+            | .ok tv => { st with live := (if st.rootType.named.isSome then tv.value else st.live), rootType := tr }
+            | _ => { st with rootType := tr }
+          else st
         match asTyped s obj st.rootType true with
         | .err => (st, "invalid")
         | .panic => (st, "panic")
